@@ -93,8 +93,9 @@ def queries(tier):
             for pos in (0, 1):
                 gcells.append((tk, op, pos, 0))
     for op in NAMED_OPS:
-        for tk in (([S2, LO3] if op in (2, 7, 11) else [S2]) if tier == 'quick' else [S2, LO1, LO2, LO3]):
-            for kl in ([1] if tier == 'quick' else [0, 1, 2]):
+        if tier == 'quick' and op == 4: continue   # get<bool> with a symbolic name: 540 s / 7 GB (thorough); concrete names in h_unused.c
+        for tk in (([S2, LO3] if op in (2, 7, 11) else [S2]) if tier == 'quick' else ([S2] if op == 4 else [S2, LO1, LO2, LO3])):
+            for kl in ([1] if (tier == 'quick' or op == 4) else [0, 1, 2]):
                 gcells.append((tk, op, 0, kl))
     for op in (12,):
         gcells.append((F2S, op, 0, 1)); gcells.append((F2, op, 0, 1))
